@@ -601,6 +601,17 @@ class Runtime:
         _h.emit("cap.out", s, o, a, value, "ret")
         return _h.val(value)
 
+    @staticmethod
+    def wrapped(fn: Any) -> Any:
+        """An ordinary pass-through decorator written with functools.wraps."""
+        import functools
+
+        @functools.wraps(fn)
+        def wrapper(*args: Any, **kwargs: Any) -> Any:
+            return fn(*args, **kwargs)
+
+        return wrapper
+
     def errf(_h, c: int, role: str, owner: int, **kw: Any) -> Any:
         con = _h.prog["con"][c - 1]
         o, a, old, res = _h._seen(kw, owner)
